@@ -540,3 +540,77 @@ func fieldOfLoad(v ssa.Value) (string, string, bool) {
 	}
 	return named.Obj().Name(), fld, true
 }
+
+// lockReleaseAudit: every explicit Lock/RLock on a struct-field (or local / captured) mutex is released on every
+// path to a return: after the acquire, a return is reachable only through the matching Unlock/RUnlock on the same
+// mutex or a `defer` of it. A path that returns with the lock held blocks every later operation on that object forever.
+// Returns the number of acquire sites examined.
+func lockReleaseAudit(c *Ctx, rule string, rels []string) int {
+	sameMutex := func(a, b ssa.Value) bool {
+		if a == b || sameVal(a, b) {
+			return true
+		}
+		fa, ok1 := a.(*ssa.FieldAddr)
+		fb, ok2 := b.(*ssa.FieldAddr)
+		if ok1 && ok2 && fa.Field == fb.Field && (fa.X == fb.X || sameVal(fa.X, fb.X)) {
+			return true
+		}
+		return false
+	}
+	n := 0
+	for _, rel := range rels {
+		for _, fn := range c.srcFuncs(rel) {
+			k := 0
+			eachInstr(fn, func(_ *ssa.BasicBlock, _ int, ins ssa.Instruction) {
+				call, ok := ins.(*ssa.Call)
+				if !ok {
+					return
+				}
+				name := callName(call)
+				var rel string
+				switch name {
+				case "sync.Mutex.Lock", "sync.RWMutex.Lock":
+					rel = "Unlock"
+				case "sync.RWMutex.RLock":
+					rel = "RUnlock"
+				default:
+					return
+				}
+				mu := call.Call.Args[0]
+				n++
+				k++
+				isRelease := func(x ssa.Instruction) bool {
+					ci, ok := x.(ssa.CallInstruction)
+					if !ok {
+						return false
+					}
+					if _, isGo := x.(*ssa.Go); isGo {
+						return false
+					}
+					cn := callName(ci)
+					if !(strings.HasSuffix(cn, "."+rel) && strings.HasPrefix(cn, "sync.")) {
+						// a deferred closure / helper that releases it
+						if d, isDefer := x.(*ssa.Defer); isDefer {
+							if mc, ok := d.Call.Value.(*ssa.MakeClosure); ok {
+								found := false
+								eachCall(mc.Fn.(*ssa.Function), func(c2 ssa.CallInstruction) {
+									if strings.HasSuffix(callName(c2), "."+rel) {
+										found = true
+									}
+								})
+								return found
+							}
+						}
+						return false
+					}
+					return sameMutex(ci.Common().Args[0], mu)
+				}
+				q := &pathQuery{fn: fn, target: isReturn, stop: isRelease}
+				hit, path := q.after(ins)
+				c.ob(rule, fnKey(fn)+"#lock-released-on-every-return-"+itoa(k), call.Pos(), hit == nil,
+					"a return is reachable after this "+short(name)+" without the matching "+rel+" (explicit or deferred): the function can return with the lock held, after which every operation that needs it blocks forever", c.blockPath(path)...)
+			})
+		}
+	}
+	return n
+}
